@@ -37,6 +37,14 @@ fn master(rng: &mut Rng) -> (Vec<String>, Vec<(String, String)>) {
         rules.push(format!("||c.example.com^$csp=d{},tag={}", ti, t));
     }
     urls.push(("https://c.example.com/".to_string(), "document".to_string()));
+    // two tags whose rules are ALL full regular expressions without '*' or '^' (they own a compiled regex although
+    // the rule is not flagged as a wildcard rule)
+    for t in ["fr1", "fr2"] {
+        for k in 0..3 {
+            rules.push(format!("/zz{}n{}x[0-9]+/$tag={}", t, k, t));
+            urls.push((format!("https://a.example.com/zz{}n{}x42", t, k), "script".to_string()));
+        }
+    }
     // untagged regex rules with one anchor each
     for k in 0..10 {
         rules.push(format!("|https://u.example.com/l{:02}/*.js", k));
@@ -107,7 +115,10 @@ pub fn record_c06(out: &str, seed: u64, n_ops: usize, mode: &str) {
         }
     }
     let reqs: Vec<(Request, String, String)> = urls.iter().filter_map(|(u, t)| Request::new(u, "https://s.example.org/", t).ok().map(|r| (r, u.clone(), t.clone()))).collect();
-    let all_tags = ["t1", "t2", "t3"];
+    let all_tags = ["t1", "t2", "t3", "fr1", "fr2"];
+    // scripted interludes: (operation, tags) executed before the next random choice.  The "regex-only tag dance":
+    // only fr1 on - queries - nothing on - only fr2 on - queries (rules freed and re-allocated between compilations)
+    let mut script: std::collections::VecDeque<(usize, Vec<String>)> = Default::default();
     let mut recent: Vec<String> = vec![];
     let mut nontrivial = 0u64;
     let mut samples = vec![];
@@ -118,7 +129,14 @@ pub fn record_c06(out: &str, seed: u64, n_ops: usize, mode: &str) {
     while ops_done < n_ops {
         ops_done += 1;
         let forced = burst > 0;
-        let r = if forced { burst -= 1; if burst % 2 == 0 { 99 } else { 30 } } else { rng.below(100) };
+        let mut scripted_tags: Option<Vec<String>> = None;
+        let r = if let Some((op, ts)) = script.pop_front() { scripted_tags = Some(ts); op }
+                else if forced { burst -= 1; if burst % 2 == 0 { 99 } else { 30 } }
+                else { rng.below(100) };
+        if scripted_tags.is_none() && !forced && rng.chance(1, 40) {
+            let (a, b) = if rng.chance(1, 2) { ("fr1", "fr2") } else { ("fr2", "fr1") };
+            script.extend([(0usize, vec![a.to_string()]), (99, vec![]), (0, vec![]), (0, vec![b.to_string()]), (99, vec![])]);
+        }
         let pick_tags = |rng: &mut Rng| -> Vec<String> { all_tags.iter().filter(|_| rng.chance(1, 2)).map(|s| s.to_string()).collect() };
         let mut log = |w: &mut LineWriter, recent: &mut Vec<String>, v: Value, brief: String| {
             recent.push(brief);
@@ -128,9 +146,10 @@ pub fn record_c06(out: &str, seed: u64, n_ops: usize, mode: &str) {
             w.put(&v);
         };
         if r < 18 {
-            let ts = pick_tags(&mut rng);
+            let scripted = scripted_tags.is_some();
+            let ts = match scripted_tags.take() { Some(t) => t, None => pick_tags(&mut rng) };
             let refs: Vec<&str> = ts.iter().map(|s| s.as_str()).collect();
-            let name = ["use", "enable", "disable"][rng.below(3)];
+            let name = if scripted { "use" } else { ["use", "enable", "disable"][rng.below(3)] };
             let res = guarded(|| match (&mut obj, name) {
                 (Obj::B(b, _), "use") => b.use_tags(&refs),
                 (Obj::B(b, _), "enable") => b.enable_tags(&refs),
